@@ -80,6 +80,20 @@
       resolve rsl ident = Some key; S_resolver_genuine c rsl p (the resolver resolves only genuine (identifier, key) pairs of
       this message); named signer in `signers`; rdr_bytes.
 
+   5b. STREAMING, THE READER OBJECT DRAINED BY THE TRANSLATED getNextChunk (GoEndToEndAuth.go_drain ext fn recv F obj: at most F
+      calls of the translated decryptStream.getNextChunk / signcryptOpenStream.getNextChunk, each run by the evaluator on the
+      object the previous call left in the receiver, stopping at the first non-nil error; the call returning the error returns
+      a chunk value too, tl = [] or [[]] below).
+      go_NewDecryptStream_drain_of_model, go_NewSigncryptOpenStream_drain_of_model: for EVERY input wire on which the model's
+        open_stream / signcrypt_open_stream ends cleanly (Ok (_, chunks, EOF)): the translated constructor returns
+        (MessageKeyInfo / signer, newChunkReader obj, nil) and for EVERY number of calls F with |wire| < F <= 2^64,
+        go_drain F obj = (chunks ++ tl, Some io.EOF).  Hypotheses: the model's clean end; rdr_bytes rd = Some wire.
+      go_NewDecryptStream_drain_accepts_spec, go_NewSigncryptOpenStream_drain_accepts_spec_box / _sym: on the spec encoders'
+        bytes, under the hypotheses of 4 / 5: the constructor returns the MessageKeyInfo with the attribution of 4 / the signer
+        of 5 and a reader object obj, and for every F with |message| < F <= 2^64 the concatenation of the chunks the F calls of
+        the translated getNextChunk return is concat (se_chunks p) / concat (sc_chunks p) and the ending error is io.EOF
+        (-- or the witness S_foreign_box_opens / S_identifier_collision).
+
    (b) GATING (C17).  [gated_view view vd typ input] is GateProofs.gated with the header view NAMED (gated_view_gated: it implies
    gated): the input starts with a bin object hb (read_header_bytes), hb decodes under the entry point's own view (view_sig_header
    for the signature receivers, view_enc_header for Open / SigncryptOpen) to a header h with h_format h = "saltpack"
@@ -133,15 +147,30 @@
       go_SigncryptOpen_refuses_spec_encryption: S_encode_encryption c p -> SigncryptOpen / NewSigncryptOpenStream return
           (nil, nil, ErrWrongMessageType) for ANY keyring / signers / resolver.  Hypotheses: Hc; enc_params_ok c p; rdr_bytes.
       go_Open_refuses_spec_signcryption: S_encode_signcryption c p -> Open / NewDecryptStream return
-          (pm input, nil, ErrWrongMessageType) for ANY validator / keyring.  Hypotheses: Hc; sc_params_ok c p; rdr_bytes.
+          (pm input, nil, ErrWrongMessageType) for ANY validator / keyring.  Hypotheses: sc_params_ok c p; rdr_bytes (no Hc).
+      8c. spec-following ENCRYPTION / SIGNCRYPTION messages given to the four signature entry points (their view reads the
+      first five header fields by index and ignores the rest, so these headers decode there and the mode gate refuses them):
+      go_signature_receivers_refuse_spec_encryption: Verify, NewVerifyStream return (nil, nil, ErrWrongMessageType),
+          VerifyDetached, VerifyDetachedReader (any msg, any reader ending) return (nil, ErrWrongMessageType) on
+          S_encode_encryption c p.  Hypotheses: Hc; enc_params_ok c p; admits vd (se_major p) (se_minor p); rdr_bytes.
+      go_signature_receivers_refuse_spec_signcryption: the same on S_encode_signcryption c p.
+          Hypotheses: sc_params_ok c p; admits vd 2 (sc_minor p); rdr_bytes (no Hc).
+   EXAMPLES (Module Examples, model/ToyCrypto.v): the translated entry points RUN by vm_compute on spec-encoder bytes
+   (foreign-looking attached / detached signature: 1- and 2-byte chunks, version 2.7, extras; V1 encryption with a hidden
+   recipient; signcryption with a box and a symmetric recipient): acceptance with the expected values, the cross refusals; and
+   instances of go_Verify_accepts_spec, go_VerifyDetached_accepts_spec, go_VerifyDetached_refuses_spec_attached,
+   go_Open_accepts_spec, go_SigncryptOpen_accepts_spec_box with EVERY hypothesis discharged (the hypotheses are satisfiable).
 
    WHAT IS NOT COVERED.  (1) The limits of (R) listed above (externs inside Verify / Open / SigncryptOpen; error-free readers;
-   opaque validator / keyring / resolver objects).  (2) Streaming acceptance for Open / SigncryptOpen gives the reader OBJECT and
-   the MODEL's loop from its state (as GoEndToEndEnc.v does); only for attached signatures (2.) is the object also drained by the
-   translated getNextChunk.  (3) The receiver's keyring in 4 / 5 is the single-key ring of the model theorems (C09 states
-   them so).  (4) Signature-mode headers given to Open / SigncryptOpen (and encryption-mode headers given to the signature
+   opaque validator / keyring / resolver objects).  (2) Streaming: the reader objects are drained by the translated getNextChunk
+   (2, 5b); chunkReader.Read, which re-slices the chunks into the caller's buffers (GoAstProofs4c.go_chunkReader_Read), is not
+   composed (as in GoEndToEndAuth.v: WHAT IS NOT COMPOSED (1)); getNextChunk runs under GoAstProofs4b.ext_chunk (processBlock,
+   read*Block, checkDecodedChunkState, assertEndOfStream = the model's functions, each with its own tie).  (3) The receiver's
+   keyring in 4 / 5 is the single-key ring of the model theorems (C09 states them so).  (4) Signature-mode headers given to Open / SigncryptOpen (and encryption-mode headers given to the signature
    receivers) are decoded under ANOTHER view; whether that decoding succeeds is a MessagePack question, not a gate question: 7
-   covers every input whose header decodes under the entry point's view, 8b the pairs where the spec headers do. *)
+   covers every input whose header decodes under the entry point's view, 8b / 8c the pairs where the spec headers do
+   (signature-mode spec headers have no recipient list; Examples.ex_sig_into_enc_computes: on the example Open / SigncryptOpen
+   return a decode error for them -- computed there, not proved in general). *)
 From Coq Require Import List String NArith ZArith Bool Lia.
 From Coq.Strings Require Import Byte.
 From SP Require Import Bytes Consts Params Msgpack Crypto Errors Nonce Packets Chunker Rand Sign Verify Encrypt Decrypt Signcrypt Spec
@@ -181,7 +210,7 @@ Lemma open_class_ret (m : mki) (k : bytes * bytes) (msg : bytes) :
   snd k = mki_receiver m -> open_class (ORet [g_mki m k; VBytes msg; VNil]) = Ok (m, msg).
 Proof. intros Hk. cbn [open_class]. rewrite (as_mki_g m k Hk). reflexivity. Qed.
 
-(* ================= 1. attached signatures: Verify, NewVerifyStream, getNextChunk ================= *)
+(* ================= 1-2. attached signatures: Verify, NewVerifyStream, getNextChunk ================= *)
 Section AcceptAttached.
 Variable c : crypto.
 Hypothesis Hc : crypto_ok c.
@@ -271,7 +300,7 @@ Proof.
 Qed.
 End AcceptAttached.
 
-(* ================= 2. detached signatures: VerifyDetached, VerifyDetachedReader ================= *)
+(* ================= 3. detached signatures: VerifyDetached, VerifyDetachedReader ================= *)
 Section AcceptDetached.
 Variable c : crypto.
 Hypothesis Hc : crypto_ok c.
@@ -304,7 +333,7 @@ Proof.
 Qed.
 End AcceptDetached.
 
-(* ================= 3. encryption: Open, NewDecryptStream ================= *)
+(* ================= 4. encryption: Open, NewDecryptStream ================= *)
 Section AcceptEncryption.
 Variable c : crypto.
 Hypothesis Hc : crypto_ok c.
@@ -347,7 +376,7 @@ Proof.
 Qed.
 End AcceptEncryption.
 
-(* ================= 4. signcryption: SigncryptOpen, NewSigncryptOpenStream ================= *)
+(* ================= 5. signcryption: SigncryptOpen, NewSigncryptOpenStream ================= *)
 Section AcceptSigncryption.
 Variable c : crypto.
 Hypothesis Hc : crypto_ok c.
@@ -414,6 +443,204 @@ Proof.
   exists chunks, pkey, hh, rest. split; [exact Hn|]. split; [exact Hloop|exact Hcc].
 Qed.
 End AcceptSigncryption.
+
+(* ================= 5b. the streaming receivers of Open / SigncryptOpen drained by the translated getNextChunk ================= *)
+(* GoEndToEndAuth.go_drain ext fn recv F obj: at most F calls of the translated getNextChunk, each run by the evaluator on the
+   object the previous call left in the receiver, stopping at the first non-nil error: the chunks returned (the call that
+   returns the error returns a chunk value too: tl below) and that error. *)
+Section DrainAccept.
+Variable c : crypto.
+
+(* when the model's loop ends cleanly, every sufficient number of calls returns exactly its chunks, then io.EOF *)
+Lemma go_drain_clean (ext : externs) (fn : gfunc) (recv : string)
+      (step : N -> bytes -> result (bytes * bool * bytes))
+      (shrinks : forall n input ch final rest, step n input = Ok (ch, final, rest) -> (List.length rest < List.length input)%nat)
+      (enc : bytes -> gval) (obj : N -> bytes -> gval)
+      (enc_bytes : forall b, vbytes_of (enc b) = Some b)
+      (Hspec : forall n input, (n < 18446744073709551616)%N ->
+         chunk_spec recv enc (fun rest => obj (n + 1)%N rest) (step n input) (run_func2 ext fn [obj n input]))
+      (Fc : nat) (rest : bytes) (chunks : list bytes) :
+  GoEndToEndAuth.step_loop step Fc 0 rest = (chunks, EOF) ->
+  forall F, (Fc <= F)%nat -> (N.of_nat F <= 18446744073709551616)%N ->
+  exists tl, (tl = [] \/ tl = [[]]) /\
+    GoEndToEndAuth.go_drain ext fn recv F (obj 0%N rest) = ((chunks ++ tl)%list, Some (VErr "io.EOF" [])).
+Proof.
+  intros Hl F HF HF64.
+  assert (Hst : GoEndToEndAuth.step_loop step F 0 rest = (chunks, EOF)).
+  { rewrite (GoEndToEndAuth.step_loop_stable step shrinks Fc F 0%N rest); [exact Hl| |exact HF]. rewrite Hl. discriminate. }
+  pose proof (GoEndToEndAuth.go_drain_step_loop ext fn recv step shrinks enc obj enc_bytes Hspec F 0%N rest ltac:(lia)) as H.
+  rewrite Hst in H. cbn [fst snd GoAstProofs4b.g_err] in H. exact H.
+Qed.
+
+(* (TARGET) for EVERY input on which the model's open_stream ends cleanly: NewDecryptStream's reader object, drained *)
+Theorem go_NewDecryptStream_drain_of_model (pm : bytes -> gval) (vd : validator) (kr : keyring) (VV RING rd : gval)
+        (wire : bytes) (m : mki) (chunks : list bytes) :
+  open_stream c vd kr wire = Ok (m, mkOut chunks EOF) ->
+  rdr_bytes rd = Some wire ->
+  exists (k : bytes * bytes) (obj : gval),
+    In k (kr_keys kr) /\ snd k = mki_receiver m /\
+    fst (run_func2 (ext_nds c pm vd kr) f_saltpack_NewDecryptStream [VV; rd; RING]) = ORet [g_mki m k; g_cr_new obj; VNil] /\
+    forall F, (List.length wire < F)%nat -> (N.of_nat F <= 18446744073709551616)%N ->
+      exists tl, (tl = [] \/ tl = [[]]) /\
+        GoEndToEndAuth.go_drain (ext_chunk c TBytes) f_saltpack_decryptStream_getNextChunk "ds" F obj
+        = ((chunks ++ tl)%list, Some (VErr "io.EOF" [])).
+Proof.
+  intros Ho Hrd.
+  pose proof (open_stream_header c vd kr wire) as Hh. rewrite Ho in Hh.
+  destruct (dec_read_header c vd kr wire) as [[[m' st] rest]|e] eqn:Hd; cbn [bind fst snd] in Hh; [|discriminate].
+  assert (Hm : m' = m) by congruence. subst m'.
+  assert (Hl : decrypt_loop c (S (List.length rest)) st 0 rest [] = mkOut chunks EOF) by congruence.
+  destruct (dec_header_key_some c vd kr wire m st rest Hd) as (_ & k & Hk & Hks).
+  assert (Hver : (vmaj (ds_version st) = 1 \/ vmaj (ds_version st) = 2)%Z /\ (List.length rest <= List.length wire)%nat).
+  { revert Hd. unfold dec_read_header.
+    destruct (read_header_bytes wire) as [[hb rest0]|e] eqn:Erh; cbn [bind fst snd]; [|discriminate].
+    destruct (decode_header view_enc_header hb) as [h|e]; cbn [bind]; [|discriminate].
+    destruct (process_enc_header c vd kr (sha512 c hb) h) as [[m' st']|e] eqn:Hp; cbn [bind]; [|discriminate].
+    intros H. injection H as _ <- <-. split; [exact (GoEndToEndAuth.process_enc_header_ver12 c vd kr _ h m' st' Hp)|].
+    exact (SignAuthProofs.read_header_bytes_suffix _ _ _ Erh). }
+  destruct Hver as [Hver Hrest].
+  exists k, (g_ds_done VV RING (g_mps_raw rest 1) VNil m st k).
+  split; [exact (GoEndToEndEnc.dec_header_key_in c kr wire k Hk)|]. split; [exact Hks|]. split.
+  - rewrite (go_NewDecryptStream c pm vd kr VV rd RING wire Hrd). unfold nds_outcome. rewrite Hd, Hk. reflexivity.
+  - intros F HF HF64.
+    rewrite GoEndToEndAuth.decrypt_loop_step_loop in Hl. cbn [rev app] in Hl.
+    assert (Hsl : GoEndToEndAuth.step_loop (dec_step c st) (S (List.length rest)) 0 rest = (chunks, EOF)).
+    { destruct (GoEndToEndAuth.step_loop (dec_step c st) (S (List.length rest)) 0 rest) as [a b]. cbn [fst snd] in Hl.
+      injection Hl as -> ->. reflexivity. }
+    exact (go_drain_clean (ext_chunk c TBytes) f_saltpack_decryptStream_getNextChunk "ds" (dec_step c st)
+             (GoEndToEndAuth.dec_step_shrinks c st) g_chunk_nil
+             (fun n inp => g_ds_done VV RING (g_mps inp n) VNil m st k) GoEndToEndAuth.vbytes_of_chunk_nil
+             (fun n inp Hn => GoEndToEndAuth.go_decrypt_getNextChunk_obj c VV RING VNil (g_mki m k) st n inp Hver Hn)
+             (S (List.length rest)) rest chunks Hsl F ltac:(lia) HF64).
+Qed.
+
+(* (TARGET) the same for NewSigncryptOpenStream *)
+Theorem go_NewSigncryptOpenStream_drain_of_model (kr : keyring) (signers : sigring) (rv : resolver) (KR RV rd : gval)
+        (wire : bytes) (sg : option bytes) (chunks : list bytes) :
+  signcrypt_open_stream c kr signers rv wire = Ok (sg, mkOut chunks EOF) ->
+  rdr_bytes rd = Some wire ->
+  exists obj : gval,
+    fst (run_func2 (ext_nsos c kr signers rv) f_saltpack_NewSigncryptOpenStream [rd; KR; RV])
+    = ORet [g_signer sg; g_cr_new obj; VNil] /\
+    forall F, (List.length wire < F)%nat -> (N.of_nat F <= 18446744073709551616)%N ->
+      exists tl, (tl = [] \/ tl = [[]]) /\
+        GoEndToEndAuth.go_drain (ext_chunk c TSigncryptionBlock) f_saltpack_signcryptOpenStream_getNextChunk "sos" F obj
+        = ((chunks ++ tl)%list, Some (VErr "io.EOF" [])).
+Proof.
+  intros Ho Hrd.
+  pose proof (signcrypt_open_stream_header c kr signers rv wire) as Hh. rewrite Ho in Hh.
+  destruct (sc_read_header c kr signers rv wire) as [[[[pkey sg'] hh] rest]|e] eqn:Hd; cbn [bind] in Hh; [|discriminate].
+  assert (E1 : sg' = sg) by congruence. subst sg'.
+  assert (Hl : sc_open_loop c (S (List.length rest)) pkey sg hh 0 rest [] = mkOut chunks EOF) by congruence.
+  assert (Hrest : (List.length rest <= List.length wire)%nat).
+  { revert Hd. unfold sc_read_header.
+    destruct (read_header_bytes wire) as [[hb rest0]|e] eqn:Erh; cbn [bind fst snd]; [|discriminate].
+    destruct (decode_header view_enc_header hb) as [h'|e]; cbn [bind]; [|discriminate].
+    destruct (process_sc_header c kr signers rv h'); cbn [bind]; [|discriminate].
+    intros H. injection H as _ _ _ <-. exact (SignAuthProofs.read_header_bytes_suffix _ _ _ Erh). }
+  exists (g_sos_done (g_mps_raw rest 1) KR RV pkey hh sg). split.
+  - rewrite (go_NewSigncryptOpenStream c kr signers rv rd KR RV wire Hrd). unfold nsos_outcome. rewrite Hd. reflexivity.
+  - intros F HF HF64.
+    rewrite GoEndToEndAuth.sc_open_loop_step_loop in Hl. cbn [rev app] in Hl.
+    assert (Hsl : GoEndToEndAuth.step_loop (sc_step c pkey sg hh) (S (List.length rest)) 0 rest = (chunks, EOF)).
+    { destruct (GoEndToEndAuth.step_loop (sc_step c pkey sg hh) (S (List.length rest)) 0 rest) as [a b]. cbn [fst snd] in Hl.
+      injection Hl as -> ->. reflexivity. }
+    exact (go_drain_clean (ext_chunk c TSigncryptionBlock) f_saltpack_signcryptOpenStream_getNextChunk "sos" (sc_step c pkey sg hh)
+             (GoEndToEndAuth.sc_step_shrinks c pkey sg hh) VBytes
+             (fun n inp => g_sos_done (g_mps inp n) KR RV pkey hh sg) GoEndToEndAuth.vbytes_of_VBytes
+             (fun n inp Hn => GoEndToEndAuth.go_signcrypt_getNextChunk_obj c KR RV pkey hh sg n inp Hn)
+             (S (List.length rest)) rest chunks Hsl F ltac:(lia) HF64).
+Qed.
+
+Lemma concat_app_tl (chunks tl : list bytes) : tl = [] \/ tl = [[]] -> List.concat (chunks ++ tl)%list = List.concat chunks.
+Proof. intros [-> | ->]; rewrite concat_app; cbn [List.concat]; rewrite ?app_nil_r; reflexivity. Qed.
+
+Hypothesis Hc : crypto_ok c.
+
+(* (TARGET) spec-following ENCRYPTION messages, streamed: the translated constructor, then the translated getNextChunk *)
+Theorem go_NewDecryptStream_drain_accepts_spec (pm : bytes -> gval) (p : S_enc) (sk : bytes) (hide : bool) (i : nat)
+        (vd : validator) (VV RING rd : gval) :
+  enc_params_ok c p -> admits vd (se_major p) (se_minor p) ->
+  nth_error (se_rcpts p) i = Some (dh_pub c sk, hide) ->
+  rdr_bytes rd = Some (S_encode_encryption c p) ->
+  let kr := mkRing [(sk, dh_pub c sk)] None in
+  (exists (m : mki) (obj : gval),
+      fst (run_func2 (ext_nds c pm vd kr) f_saltpack_NewDecryptStream [VV; rd; RING])
+      = ORet [g_mki m (sk, dh_pub c sk); g_cr_new obj; VNil] /\
+      mki_sender m = dh_pub c (match se_sender p with Some s => s | None => se_eph p end) /\
+      mki_sender_anon m = (match se_sender p with Some _ => false | None => true end) /\
+      mki_receiver m = dh_pub c sk /\ mki_receiver_anon m = hide /\
+      forall F, (List.length (S_encode_encryption c p) < F)%nat -> (N.of_nat F <= 18446744073709551616)%N ->
+        let d := GoEndToEndAuth.go_drain (ext_chunk c TBytes) f_saltpack_decryptStream_getNextChunk "ds" F obj in
+        List.concat (fst d) = List.concat (se_chunks p) /\ snd d = Some (VErr "io.EOF" []))
+  \/ S_foreign_box_opens c p sk.
+Proof.
+  intros Hp Hvd Hi Hrd kr.
+  destruct (spec_encryption_accepted c Hc p sk hide i vd Hp Hvd Hi) as [(m & chunks & Ho & Hcc & Hs & Hsa & Hr & Hra & _)|Hf];
+    [left|right; exact Hf].
+  fold kr in Ho.
+  destruct (go_NewDecryptStream_drain_of_model pm vd kr VV RING rd _ m chunks Ho Hrd) as (k & obj & Hkin & Hks & Hnds & Hdr).
+  assert (Hk : k = (sk, dh_pub c sk)).
+  { cbn [kr kr_keys In] in Hkin. destruct Hkin as [<-|[]]. reflexivity. }
+  subst k. exists m, obj. split; [exact Hnds|]. split; [exact Hs|]. split; [exact Hsa|]. split; [exact Hr|]. split; [exact Hra|].
+  intros F HF HF64 d. destruct (Hdr F HF HF64) as (tl & Htl & Hd). subst d. rewrite Hd. cbn [fst snd].
+  split; [|reflexivity]. rewrite (concat_app_tl chunks tl Htl). exact Hcc.
+Qed.
+
+(* (TARGET) spec-following SIGNCRYPTION messages, streamed (holder of a box key; holder of a symmetric key) *)
+Theorem go_NewSigncryptOpenStream_drain_accepts_spec_box (p : S_sc) (sk : bytes) (i : nat) (signers : sigring) (rv : resolver)
+        (KR RV rd : gval) :
+  sc_params_ok c p ->
+  nth_error (sc_rcpts p) i = Some (S_BoxR (dh_pub c sk)) ->
+  (forall s, sc_signer p = Some s -> In (ed_pub c s) signers) ->
+  rdr_bytes rd = Some (S_encode_signcryption c p) ->
+  let kr := mkRing [(sk, dh_pub c sk)] None in
+  let sg := option_map (ed_pub c) (sc_signer p) in
+  (exists obj : gval,
+      fst (run_func2 (ext_nsos c kr signers rv) f_saltpack_NewSigncryptOpenStream [rd; KR; RV])
+      = ORet [g_signer sg; g_cr_new obj; VNil] /\
+      forall F, (List.length (S_encode_signcryption c p) < F)%nat -> (N.of_nat F <= 18446744073709551616)%N ->
+        let d := GoEndToEndAuth.go_drain (ext_chunk c TSigncryptionBlock) f_saltpack_signcryptOpenStream_getNextChunk "sos" F obj in
+        List.concat (fst d) = List.concat (sc_chunks p) /\ snd d = Some (VErr "io.EOF" []))
+  \/ S_identifier_collision c p sk i.
+Proof.
+  intros Hp Hi Hsg Hrd kr sg.
+  destruct (spec_signcryption_accepted_box c Hc p sk i signers rv Hp Hi Hsg) as [(chunks & Ho & Hcc & _)|Hf];
+    [left|right; exact Hf].
+  fold kr in Ho. fold sg in Ho.
+  destruct (go_NewSigncryptOpenStream_drain_of_model kr signers rv KR RV rd _ sg chunks Ho Hrd) as (obj & Hn & Hdr).
+  exists obj. split; [exact Hn|].
+  intros F HF HF64 d. destruct (Hdr F HF HF64) as (tl & Htl & Hd). subst d. rewrite Hd. cbn [fst snd].
+  split; [|reflexivity]. rewrite (concat_app_tl chunks tl Htl). exact Hcc.
+Qed.
+
+(* (TARGET) *)
+Theorem go_NewSigncryptOpenStream_drain_accepts_spec_sym (p : S_sc) (i : nat) (key ident : bytes) (rsl : list (bytes * bytes))
+        (signers : sigring) (KR RV rd : gval) :
+  sc_params_ok c p ->
+  nth_error (sc_rcpts p) i = Some (S_SymR key ident) ->
+  resolve rsl ident = Some key ->
+  S_resolver_genuine c rsl p ->
+  (forall s, sc_signer p = Some s -> In (ed_pub c s) signers) ->
+  rdr_bytes rd = Some (S_encode_signcryption c p) ->
+  let kr := mkRing [] None in
+  let sg := option_map (ed_pub c) (sc_signer p) in
+  exists obj : gval,
+    fst (run_func2 (ext_nsos c kr signers (Some rsl)) f_saltpack_NewSigncryptOpenStream [rd; KR; RV])
+    = ORet [g_signer sg; g_cr_new obj; VNil] /\
+    forall F, (List.length (S_encode_signcryption c p) < F)%nat -> (N.of_nat F <= 18446744073709551616)%N ->
+      let d := GoEndToEndAuth.go_drain (ext_chunk c TSigncryptionBlock) f_saltpack_signcryptOpenStream_getNextChunk "sos" F obj in
+      List.concat (fst d) = List.concat (sc_chunks p) /\ snd d = Some (VErr "io.EOF" []).
+Proof.
+  intros Hp Hi Hres Hgen Hsg Hrd kr sg.
+  destruct (spec_signcryption_accepted_sym c Hc p i key ident rsl signers Hp Hi Hres Hgen Hsg) as (chunks & Ho & Hcc & _).
+  fold kr in Ho. fold sg in Ho.
+  destruct (go_NewSigncryptOpenStream_drain_of_model kr signers (Some rsl) KR RV rd _ sg chunks Ho Hrd) as (obj & Hn & Hdr).
+  exists obj. split; [exact Hn|].
+  intros F HF HF64 d. destruct (Hdr F HF HF64) as (tl & Htl & Hd). subst d. rewrite Hd. cbn [fst snd].
+  split; [|reflexivity]. rewrite (concat_app_tl chunks tl Htl). exact Hcc.
+Qed.
+End DrainAccept.
 
 (* ====================================================================================================== *)
 (* ================= (b) GATING (C17) at the level of the translated Go code ================= *)
@@ -561,7 +788,7 @@ Proof.
 Qed.
 End GateModel.
 
-(* ================= 5. success of a translated entry point implies the gate ================= *)
+(* ================= 6. success of a translated entry point implies the gate ================= *)
 Section GateGo.
 Variable c : crypto.
 
@@ -633,6 +860,7 @@ Proof.
   rewrite (go_VerifyDetached c vd kr VV KR msg sigfile). exact Hcl.
 Qed.
 
+(* (TARGET) *)
 Theorem go_VerifyDetachedReader_gated_nil_error (vd : validator) (kr : sigring) (VV KR : gval) (msg : bytes)
         (rerr : option (string * list gval)) (sigfile : bytes) (sg : gval) :
   let rv := match rerr with Some (n, a) => Some (VErr n a) | None => None end in
@@ -721,7 +949,7 @@ Proof.
 Qed.
 End GateGo.
 
-(* ================= 6. the gate's refusals as outcomes, for EVERY input whose header decodes ================= *)
+(* ================= 7. the gate's refusals as outcomes, for EVERY input whose header decodes ================= *)
 (* which refusal, in the order the code checks: the signature receivers check format, version, mode
    (SignatureHeader.validate); Open and SigncryptOpen check format, mode, version (EncryptionHeader.validate,
    SigncryptionHeader.validate).  [ret nm]: "the call returns the error named nm" *)
@@ -906,8 +1134,8 @@ Proof.
 Qed.
 End RefuseGo.
 
-(* ================= 7. cross-mode and cross-version refusals of GENUINE messages ================= *)
-(* ---------- 7a. every message of the model's senders (C17_attached_not_detached, C17_detached_not_attached,
+(* ================= 8. cross-mode and cross-version refusals of GENUINE messages ================= *)
+(* ---------- 8a. every message of the model's senders (C17_attached_not_detached, C17_detached_not_attached,
    C17_other_version_refused composed with the receiver ties) ---------- *)
 Section CrossModel.
 Variable c : crypto.
@@ -969,7 +1197,7 @@ Proof.
 Qed.
 End CrossModel.
 
-(* ---------- 7b. every message of the GENERAL specification encoders (spec/Spec.v) ---------- *)
+(* ---------- 8b. every message of the GENERAL specification encoders (spec/Spec.v) ---------- *)
 Section CrossSpec.
 Variable c : crypto.
 Hypothesis Hc : crypto_ok c.
@@ -1107,6 +1335,294 @@ Proof.
 Qed.
 End CrossSpec.
 
+(* ---------- 8c. spec-following ENCRYPTION and SIGNCRYPTION messages given to the four signature entry points:
+   the signature receivers decode the header under view_sig_header, which reads the first five fields by index (the sixth,
+   the recipient list, and every extra element are ignored), so these headers DECODE there and the mode gate refuses them ---------- *)
+Section CrossSpecSig.
+Variable c : crypto.
+Hypothesis Hc : crypto_ok c.
+
+Lemma spec_enc_header_as_sig (p : S_enc) :
+  enc_params_ok c p ->
+  exists h, read_header_bytes (S_encode_encryption c p)
+            = Ok (mp_encode (S_enc_header_list c p),
+                  S_enc_packets c p (sha512 c (mp_encode (S_enc_header_list c p))) 0 (S_packets (se_major p) (se_chunks p))) /\
+            decode_header view_sig_header (mp_encode (S_enc_header_list c p)) = Ok h /\
+            h_format h = format_name /\ h_version h = mkV (se_major p) (se_minor p) /\ h_type h = mt_encryption.
+Proof.
+  intros Hp.
+  destruct p as [major minor sender eph pkey rcpts chunks xh xr xp].
+  destruct Hp as (Hmaj & Hmin & Hpk & _ & _ & Hk32 & Hxh & Hxr & _ & Hlen & _).
+  cbn [se_major se_minor se_pkey se_rcpts se_extra_hdr se_extra_rcpt] in *.
+  pose proof (rcpts_le_header c major minor sender eph pkey rcpts chunks xh xr xp Hpk) as Hle.
+  assert (Hnr : (N.of_nat (List.length rcpts) < 4294967296)%N) by (unfold len in Hlen; lia).
+  pose proof (wf_S_header c Hc major minor sender eph pkey rcpts chunks xh xr xp Hmaj Hmin Hpk Hk32 Hxh Hxr Hnr) as Hwf.
+  set (p := mkSEnc major minor sender eph pkey rcpts chunks xh xr xp) in *.
+  eexists. split; [|split].
+  - unfold S_encode_encryption. apply read_header_bytes_enc. exact Hlen.
+  - rewrite (decode_header_enc view_sig_header _ Hwf). unfold S_enc_header_list, p.
+    cbn [se_major se_minor se_eph se_pkey se_sender se_rcpts se_extra_hdr se_extra_rcpt].
+    match goal with |- context [MArr ([?a; ?b; ?c0; ?d; ?e; ?f] ++ ?x)] =>
+      change (MArr ([a; b; c0; d; e; f] ++ x)) with (MArr ([a; b; c0; d; e] ++ (f :: x))) end.
+    rewrite view_sig_header_ext; [reflexivity| | |].
+    + destruct Hmaj as [-> | ->]; lia.
+    + lia.
+    + unfold S_mode_encryption. lia.
+  - cbn [h_format h_version h_type]. repeat split.
+Qed.
+
+Lemma spec_sc_header_as_sig (p : S_sc) :
+  sc_params_ok c p ->
+  exists h, read_header_bytes (S_encode_signcryption c p)
+            = Ok (sp_hdr c p, S_sc_packets c p (sha512 c (sp_hdr c p)) 0 (S_flag_last (sc_chunks p))) /\
+            decode_header view_sig_header (sp_hdr c p) = Ok h /\
+            h_format h = format_name /\ h_version h = mkV 2 (sc_minor p) /\ h_type h = mt_signcryption.
+Proof.
+  intros Hp. pose proof (sp_header_wf c p Hp) as Hwf.
+  destruct Hp as (Hmin & _ & _ & _ & _ & _ & Hlen & _).
+  eexists. split; [|split].
+  - rewrite sp_encode_eq. apply read_header_bytes_enc. exact Hlen.
+  - unfold sp_hdr. rewrite (decode_header_enc view_sig_header _ Hwf). unfold S_sc_header_list.
+    match goal with |- context [MArr ([?a; ?b; ?c0; ?d; ?e; ?f] ++ ?x)] =>
+      change (MArr ([a; b; c0; d; e; f] ++ x)) with (MArr ([a; b; c0; d; e] ++ (f :: x))) end.
+    rewrite view_sig_header_ext; [reflexivity| | |].
+    + lia.
+    + lia.
+    + unfold S_mode_signcryption. lia.
+  - cbn [h_format h_version h_type]. repeat split.
+Qed.
+
+(* (TARGET) *)
+Theorem go_signature_receivers_refuse_spec_encryption (p : S_enc) (kr : sigring) (vd : validator) (VV KR rd : gval)
+        (msg : bytes) (rerr : option (string * list gval)) :
+  enc_params_ok c p -> admits vd (se_major p) (se_minor p) ->
+  rdr_bytes rd = Some (S_encode_encryption c p) ->
+  let rv := match rerr with Some (n, a) => Some (VErr n a) | None => None end in
+  fst (run_func2 (ext_verify c vd kr) f_saltpack_Verify [VV; VBytes (S_encode_encryption c p); KR])
+  = ORet [VNil; VNil; VErr "ErrWrongMessageType" []] /\
+  fst (run_func2 (ext_NVS c vd kr) f_saltpack_NewVerifyStream [VV; rd; KR])
+  = ORet [VNil; VNil; VErr "ErrWrongMessageType" []] /\
+  fst (run_func2 (ext_vdet2 c vd kr) f_saltpack_VerifyDetached [VV; VBytes msg; VBytes (S_encode_encryption c p); KR])
+  = ORet [VNil; VErr "ErrWrongMessageType" []] /\
+  fst (run_func2 (ext_vdet c vd kr) f_saltpack_VerifyDetachedReader [VV; g_rdr msg rv; VBytes (S_encode_encryption c p); KR])
+  = ORet [VNil; VErr "ErrWrongMessageType" []].
+Proof.
+  intros Hp Hvd Hrd rv.
+  destruct (spec_enc_header_as_sig p Hp) as (h & Hr & Hd & Hf & Hv & Ht).
+  assert (Hval : validate_version vd (h_version h) = true).
+  { rewrite Hv. apply validate_admits; [exact (proj1 Hp)|exact Hvd]. }
+  destruct (go_Verify_gate_refusals c vd kr VV KR rd _ _ _ h Hr Hd Hrd) as (_ & _ & H3).
+  destruct (go_VerifyDetached_gate_refusals c vd kr VV KR msg rerr _ _ _ h Hr Hd) as (_ & _ & H3').
+  assert (Hta : h_type h <> mt_attached) by (rewrite Ht; discriminate).
+  assert (Htd : h_type h <> mt_detached) by (rewrite Ht; discriminate).
+  destruct (H3 Hf Hval Hta) as (G1 & G2). destruct (H3' Hf Hval Htd) as (G3 & G4).
+  split; [exact G1|]. split; [exact G2|]. split; [exact G3|exact G4].
+Qed.
+
+(* (TARGET) *)
+Theorem go_signature_receivers_refuse_spec_signcryption (p : S_sc) (kr : sigring) (vd : validator) (VV KR rd : gval)
+        (msg : bytes) (rerr : option (string * list gval)) :
+  sc_params_ok c p -> admits vd 2 (sc_minor p) ->
+  rdr_bytes rd = Some (S_encode_signcryption c p) ->
+  let rv := match rerr with Some (n, a) => Some (VErr n a) | None => None end in
+  fst (run_func2 (ext_verify c vd kr) f_saltpack_Verify [VV; VBytes (S_encode_signcryption c p); KR])
+  = ORet [VNil; VNil; VErr "ErrWrongMessageType" []] /\
+  fst (run_func2 (ext_NVS c vd kr) f_saltpack_NewVerifyStream [VV; rd; KR])
+  = ORet [VNil; VNil; VErr "ErrWrongMessageType" []] /\
+  fst (run_func2 (ext_vdet2 c vd kr) f_saltpack_VerifyDetached [VV; VBytes msg; VBytes (S_encode_signcryption c p); KR])
+  = ORet [VNil; VErr "ErrWrongMessageType" []] /\
+  fst (run_func2 (ext_vdet c vd kr) f_saltpack_VerifyDetachedReader [VV; g_rdr msg rv; VBytes (S_encode_signcryption c p); KR])
+  = ORet [VNil; VErr "ErrWrongMessageType" []].
+Proof.
+  intros Hp Hvd Hrd rv.
+  destruct (spec_sc_header_as_sig p Hp) as (h & Hr & Hd & Hf & Hv & Ht).
+  assert (Hval : validate_version vd (h_version h) = true).
+  { rewrite Hv. apply validate_admits; [right; reflexivity|exact Hvd]. }
+  destruct (go_Verify_gate_refusals c vd kr VV KR rd _ _ _ h Hr Hd Hrd) as (_ & _ & H3).
+  destruct (go_VerifyDetached_gate_refusals c vd kr VV KR msg rerr _ _ _ h Hr Hd) as (_ & _ & H3').
+  assert (Hta : h_type h <> mt_attached) by (rewrite Ht; discriminate).
+  assert (Htd : h_type h <> mt_detached) by (rewrite Ht; discriminate).
+  destruct (H3 Hf Hval Hta) as (G1 & G2). destruct (H3' Hf Hval Htd) as (G3 & G4).
+  split; [exact G1|]. split; [exact G2|]. split; [exact G3|exact G4].
+Qed.
+End CrossSpecSig.
+
+
+(* ====================================================================================================== *)
+(* ================= EXAMPLES: the statements on concrete inputs (model/ToyCrypto.v) ================= *)
+(* ====================================================================================================== *)
+From SP Require Import ToyCrypto ToyCryptoProofs.
+Module Examples.
+(* a foreign-looking attached signature (C09_ex_foreign_attached): one-byte and two-byte chunks, minor version 7, extra
+   trailing elements in the header and in every packet *)
+Definition x_p : S_sig :=
+  mkSSig 2 7 (repeat x07 64) (repeat x09 32) [[x68]; [x69; x21]] [x68; x69; x21] [MInt 5; MStr [x78]] [MNil].
+Definition x_pk : bytes := ed_pub toy_crypto (repeat x07 64).
+
+(* the translated entry points RUN by the evaluator (vm_compute) on the spec encoder's bytes: Verify accepts, VerifyDetached
+   refuses the attached form and accepts the detached one, a validator for exactly 2.0 refuses version 2.7 *)
+Example ex_sig_computes :
+  fst (run_func2 (ext_verify toy_crypto AnyKnownMajor [x_pk]) f_saltpack_Verify [VNil; VBytes (S_encode_attached toy_crypto x_p); VNil])
+  = ORet [g_spk x_pk; VBytes [x68; x69; x21]; VNil] /\
+  fst (run_func2 (ext_vdet2 toy_crypto AnyKnownMajor [x_pk]) f_saltpack_VerifyDetached
+         [VNil; VBytes [x68; x69; x21]; VBytes (S_encode_attached toy_crypto x_p); VNil])
+  = ORet [VNil; VErr "ErrWrongMessageType" []] /\
+  fst (run_func2 (ext_vdet2 toy_crypto AnyKnownMajor [x_pk]) f_saltpack_VerifyDetached
+         [VNil; VBytes [x68; x69; x21]; VBytes (S_encode_detached toy_crypto x_p); VNil])
+  = ORet [g_spk x_pk; VNil] /\
+  fst (run_func2 (ext_verify toy_crypto AnyKnownMajor [x_pk]) f_saltpack_Verify [VNil; VBytes (S_encode_detached toy_crypto x_p); VNil])
+  = ORet [VNil; VNil; VErr "ErrWrongMessageType" []] /\
+  fst (run_func2 (ext_verify toy_crypto (Single v2) [x_pk]) f_saltpack_Verify [VNil; VBytes (S_encode_attached toy_crypto x_p); VNil])
+  = ORet [VNil; VNil; VErr "ErrBadVersion" []].
+Proof. vm_compute. repeat split. Qed.
+
+(* the hypotheses of the acceptance theorems are satisfiable: their instances on x_p, every hypothesis discharged *)
+Lemma x_extras_hdr : extras_ok (ss_extra_hdr x_p).
+Proof.
+  split; [|vm_compute; reflexivity].
+  apply Forall_cons; [cbn [wf]; lia|]. apply Forall_cons; [cbn [wf]; vm_compute; reflexivity|]. apply Forall_nil.
+Qed.
+Lemma x_p_ok : sig_params_ok x_p.
+Proof.
+  unfold sig_params_ok. split; [right; reflexivity|]. split; [cbn [ss_minor x_p]; lia|]. split; [vm_compute; reflexivity|].
+  split; [exact x_extras_hdr|].
+  split; [split; [apply Forall_cons; [exact I|apply Forall_nil]|vm_compute; reflexivity]|].
+  split; [right; split; [discriminate|repeat (apply Forall_cons; [cbn [List.length]; pose proof S_max_chunk_N; lia|]); apply Forall_nil]|].
+  vm_compute. reflexivity.
+Qed.
+Example ex_attached_instance :
+  fst (run_func2 (ext_verify toy_crypto AnyKnownMajor [x_pk]) f_saltpack_Verify [VNil; VBytes (S_encode_attached toy_crypto x_p); VNil])
+  = ORet [g_spk x_pk; VBytes (List.concat (ss_chunks x_p)); VNil].
+Proof.
+  apply (go_Verify_accepts_spec toy_crypto toy_crypto_ok x_p [x_pk] AnyKnownMajor VNil VNil x_p_ok).
+  - vm_compute. reflexivity.
+  - left. reflexivity.
+  - left. reflexivity.
+Qed.
+Example ex_detached_instance :
+  fst (run_func2 (ext_vdet2 toy_crypto (Single (mkV 2 7)) [x_pk]) f_saltpack_VerifyDetached
+         [VNil; VBytes (ss_msg x_p); VBytes (S_encode_detached toy_crypto x_p); VNil])
+  = ORet [g_spk x_pk; VNil].
+Proof.
+  apply (go_VerifyDetached_accepts_spec toy_crypto toy_crypto_ok x_p [x_pk] (Single (mkV 2 7)) VNil VNil).
+  - right. reflexivity.
+  - cbn [ss_minor x_p]. lia.
+  - vm_compute. reflexivity.
+  - exact x_extras_hdr.
+  - vm_compute. reflexivity.
+  - right. reflexivity.
+  - left. reflexivity.
+Qed.
+Example ex_cross_instance :
+  fst (run_func2 (ext_vdet2 toy_crypto AnyKnownMajor []) f_saltpack_VerifyDetached
+         [VNil; VBytes []; VBytes (S_encode_attached toy_crypto x_p); VNil])
+  = ORet [VNil; VErr "ErrWrongMessageType" []].
+Proof.
+  apply (go_VerifyDetached_refuses_spec_attached toy_crypto toy_crypto_ok x_p [] AnyKnownMajor VNil VNil [] None).
+  - right. reflexivity.
+  - cbn [ss_minor x_p]. lia.
+  - vm_compute. reflexivity.
+  - exact x_extras_hdr.
+  - vm_compute. reflexivity.
+  - left. reflexivity.
+Qed.
+
+(* encryption (V1, two recipients, the second hidden; a named sender) and signcryption (one box recipient, one symmetric
+   recipient; a named signer), with extras: the translated Open / SigncryptOpen accept, the other entry point refuses *)
+Definition x_sk1 : bytes := repeat x11 32.
+Definition x_sk2 : bytes := repeat x22 32.
+Definition x_e : S_enc :=
+  mkSEnc 1 3 (Some (repeat x33 32)) (repeat x44 32) (repeat x55 32)
+         [(dh_pub toy_crypto x_sk1, false); (dh_pub toy_crypto x_sk2, true)] [[x68; x69]; [x21]] [MInt 1] [MNil] [MBool true].
+Definition x_s : S_sc :=
+  mkSSc 5 (Some (repeat x07 64)) (repeat x44 32) (repeat x55 32)
+        [S_BoxR (dh_pub toy_crypto x_sk1); S_SymR (repeat x5a 32) [x69; x64]] [[x68; x69]; [x21]] [MInt 1] [MNil] [MBool true].
+Definition x_kr (sk : bytes) : keyring := mkRing [(sk, dh_pub toy_crypto sk)] None.
+Example ex_enc_computes :
+  (match fst (run_func2 (ext_open toy_crypto (fun _ => VNil) AnyKnownMajor (x_kr x_sk2)) f_saltpack_Open
+                [VNil; VBytes (S_encode_encryption toy_crypto x_e); VNil]) with
+   | ORet [mk; body; e] => (as_mki mk, body, e)
+   | _ => (None, VNil, VNil)
+   end
+   = (Some (mkMki (dh_pub toy_crypto (repeat x33 32)) false (dh_pub toy_crypto x_sk2) true [dh_pub toy_crypto x_sk1] 1),
+      VBytes [x68; x69; x21], VNil)) /\
+  fst (run_func2 (ext_scopen toy_crypto (x_kr x_sk2) [] None) f_saltpack_SigncryptOpen
+         [VBytes (S_encode_encryption toy_crypto x_e); VNil; VNil])
+  = ORet [VNil; VNil; VErr "ErrWrongMessageType" []] /\
+  fst (run_func2 (ext_scopen toy_crypto (x_kr x_sk1) [x_pk] None) f_saltpack_SigncryptOpen
+         [VBytes (S_encode_signcryption toy_crypto x_s); VNil; VNil])
+  = ORet [VBytes x_pk; VBytes [x68; x69; x21]; VNil] /\
+  fst (run_func2 (ext_scopen toy_crypto (mkRing [] None) [x_pk] (Some [([x69; x64], repeat x5a 32)])) f_saltpack_SigncryptOpen
+         [VBytes (S_encode_signcryption toy_crypto x_s); VNil; VNil])
+  = ORet [VBytes x_pk; VBytes [x68; x69; x21]; VNil] /\
+  fst (run_func2 (ext_open toy_crypto (fun _ => VNil) AnyKnownMajor (x_kr x_sk1)) f_saltpack_Open
+         [VNil; VBytes (S_encode_signcryption toy_crypto x_s); VNil])
+  = ORet [VNil; VNil; VErr "ErrWrongMessageType" []].
+Proof. vm_compute. repeat split. Qed.
+(* the hypotheses of the encryption / signcryption acceptance theorems are satisfiable: instances on x_e, x_s *)
+Lemma x_ex1 (m : mval) : wf m -> extras_ok [m].
+Proof. intros H. split; [apply Forall_cons; [exact H|apply Forall_nil]|vm_compute; reflexivity]. Qed.
+Lemma x_chunks_ok (major : Z) : S_chunks_ok major [[x68; x69]; [x21]].
+Proof.
+  assert (F : Forall (fun ch : bytes => (1 <= List.length ch <= S_max_chunk)%nat) [[x68; x69]; [x21]]).
+  { repeat (apply Forall_cons; [cbn [List.length]; pose proof S_max_chunk_N; lia|]). apply Forall_nil. }
+  unfold S_chunks_ok. destruct (major =? 1)%Z; [exact F|right; split; [discriminate|exact F]].
+Qed.
+Lemma x_e_ok : enc_params_ok toy_crypto x_e.
+Proof.
+  unfold enc_params_ok, x_e. cbn [se_major se_minor se_pkey se_rcpts se_extra_hdr se_extra_rcpt se_extra_pkt se_chunks se_sender se_eph].
+  split; [left; reflexivity|]. split; [lia|]. split; [reflexivity|].
+  split; [cbn [map fst]; apply NoDup_cons; [intros [H|[]]; vm_compute in H; discriminate H|apply NoDup_cons; [intros []|apply NoDup_nil]]|].
+  split; [discriminate|].
+  split; [apply Forall_cons; [vm_compute; reflexivity|apply Forall_cons; [vm_compute; reflexivity|apply Forall_nil]]|].
+  split; [apply x_ex1; cbn [wf]; lia|]. split; [apply x_ex1; exact I|]. split; [apply x_ex1; exact I|].
+  split; [vm_compute; reflexivity|]. split; [apply x_chunks_ok|]. split; [vm_compute; reflexivity|].
+  intros s Hs. injection Hs as <-. vm_compute. discriminate.
+Qed.
+Example ex_enc_instance :
+  (exists m,
+     fst (run_func2 (ext_open toy_crypto (fun _ => VNil) AnyKnownMajor (x_kr x_sk2)) f_saltpack_Open
+            [VNil; VBytes (S_encode_encryption toy_crypto x_e); VNil])
+     = ORet [g_mki m (x_sk2, dh_pub toy_crypto x_sk2); VBytes (List.concat (se_chunks x_e)); VNil] /\
+     mki_receiver_anon m = true)
+  \/ S_foreign_box_opens toy_crypto x_e x_sk2.
+Proof.
+  destruct (go_Open_accepts_spec toy_crypto toy_crypto_ok (fun _ => VNil) x_e x_sk2 true 1 AnyKnownMajor VNil VNil
+              (VBytes (S_encode_encryption toy_crypto x_e)) x_e_ok (or_introl eq_refl) eq_refl eq_refl)
+    as [(m & chunks & st & rest & Hgo & _ & _ & _ & _ & _ & _ & _ & Hra)|Hf]; [left|right; exact Hf].
+  exists m. split; [exact Hgo|exact Hra].
+Qed.
+Lemma x_s_ok : sc_params_ok toy_crypto x_s.
+Proof.
+  unfold sc_params_ok, x_s. cbn [sc_minor sc_pkey sc_rcpts sc_extra_hdr sc_extra_rcpt sc_extra_pkt sc_chunks sc_signer].
+  split; [lia|]. split; [reflexivity|]. split; [discriminate|].
+  split; [apply x_ex1; cbn [wf]; lia|]. split; [apply x_ex1; exact I|]. split; [apply x_ex1; exact I|].
+  split; [vm_compute; reflexivity|]. split; [apply x_chunks_ok|]. split; [vm_compute; reflexivity|].
+  intros s Hs. injection Hs as <-. vm_compute. reflexivity.
+Qed.
+Example ex_sc_instance :
+  fst (run_func2 (ext_scopen toy_crypto (x_kr x_sk1) [x_pk] None) f_saltpack_SigncryptOpen
+         [VBytes (S_encode_signcryption toy_crypto x_s); VNil; VNil])
+  = ORet [VBytes x_pk; VBytes (List.concat (sc_chunks x_s)); VNil]
+  \/ S_identifier_collision toy_crypto x_s x_sk1 0.
+Proof.
+  destruct (go_SigncryptOpen_accepts_spec_box toy_crypto toy_crypto_ok x_s x_sk1 0 [x_pk] None VNil VNil
+              (VBytes (S_encode_signcryption toy_crypto x_s)) x_s_ok eq_refl
+              ltac:(intros s Hs; injection Hs as <-; left; reflexivity) eq_refl)
+    as [(Hgo & _)|Hf]; [left; exact Hgo|right; exact Hf].
+Qed.
+(* signature-mode messages given to Open / SigncryptOpen: their headers have no recipient list and do not decode under
+   view_enc_header; on this example both calls return a decode error (computed; not a general theorem of this file) *)
+Example ex_sig_into_enc_computes :
+  fst (run_func2 (ext_open toy_crypto (fun _ => VNil) AnyKnownMajor (x_kr x_sk1)) f_saltpack_Open
+         [VNil; VBytes (S_encode_attached toy_crypto x_p); VNil])
+  = ORet [VNil; VNil; VErr "decode" []] /\
+  fst (run_func2 (ext_scopen toy_crypto (x_kr x_sk1) [] None) f_saltpack_SigncryptOpen
+         [VBytes (S_encode_detached toy_crypto x_p); VNil; VNil])
+  = ORet [VNil; VNil; VErr "decode" []].
+Proof. vm_compute. split; reflexivity. Qed.
+End Examples.
+
 (* ================= Print Assumptions: every TARGET is closed under the global context ================= *)
 Print Assumptions go_Verify_accepts_spec.
 Print Assumptions go_NewVerifyStream_accepts_spec.
@@ -1114,6 +1630,11 @@ Print Assumptions go_VerifyDetached_accepts_spec.
 Print Assumptions go_Open_accepts_spec.
 Print Assumptions go_SigncryptOpen_accepts_spec_box.
 Print Assumptions go_SigncryptOpen_accepts_spec_sym.
+Print Assumptions go_NewDecryptStream_drain_of_model.
+Print Assumptions go_NewSigncryptOpenStream_drain_of_model.
+Print Assumptions go_NewDecryptStream_drain_accepts_spec.
+Print Assumptions go_NewSigncryptOpenStream_drain_accepts_spec_box.
+Print Assumptions go_NewSigncryptOpenStream_drain_accepts_spec_sym.
 Print Assumptions go_Verify_gated.
 Print Assumptions go_Verify_gated_nil_error.
 Print Assumptions go_NewVerifyStream_gated_nil_error.
@@ -1139,3 +1660,7 @@ Print Assumptions go_Verify_refuses_spec_detached.
 Print Assumptions go_Verify_refuses_spec_other_version.
 Print Assumptions go_SigncryptOpen_refuses_spec_encryption.
 Print Assumptions go_Open_refuses_spec_signcryption.
+Print Assumptions go_signature_receivers_refuse_spec_encryption.
+Print Assumptions go_signature_receivers_refuse_spec_signcryption.
+
+(* UNFINISHED STATEMENTS: none.  Everything listed under TARGETS is proved; what is not composed is under WHAT IS NOT COVERED. *)
